@@ -12,6 +12,7 @@ import (
 	coraza "github.com/corazawaf/coraza/v3"
 	"github.com/corazawaf/coraza/v3/internal/verif/runner"
 	"github.com/corazawaf/coraza/v3/internal/verif/scen"
+	"github.com/corazawaf/coraza/v3/internal/verif/vrt"
 )
 
 func init() {
@@ -76,9 +77,12 @@ func render(rules []ruleD, pre, post string) string {
 	var sb strings.Builder
 	sb.WriteString(header)
 	sb.WriteString(pre)
-	for i, r := range rules {
-		if i == 2 {
+	marked := false
+	for _, r := range rules {
+		if !marked && r.ID >= 3 {
+			// the marker sits in front of rule 3 in every variant (not at a fixed index)
 			sb.WriteString("SecMarker MID\n")
+			marked = true
 		}
 		sb.WriteString(r.text())
 	}
@@ -97,6 +101,16 @@ type directive struct {
 	Arg  string `json:"arg,omitempty"`  // target or action text
 	Pos  string `json:"pos,omitempty"`  // ctl placement: p1 | before | after
 	Ctl  bool   `json:"ctl,omitempty"`
+	// SkipBase: rule 1 of the base set carries skip:2, so that a removed rule inside the skip window is observable
+	SkipBase bool `json:"skip_base,omitempty"`
+}
+
+func (d directive) base() []ruleD {
+	b := base()
+	if d.SkipBase {
+		b[0].Extra = append(b[0].Extra, "skip:2") // window = the marker in front of rule 3 and one rule
+	}
+	return b
 }
 
 func expandIDs(s string) map[int]bool {
@@ -182,6 +196,7 @@ func (d directive) rewrite(rules []ruleD, from int) []ruleD {
 func directives(thorough bool) []directive {
 	var ds []directive
 	idForms := []string{"2", "2 3", "2-3", "1 3-4", "4", "4 5"}
+	ds = append(ds, directive{Kind: "removeById", IDs: "2", SkipBase: true}, directive{Kind: "removeByTag", Tag: "t1", SkipBase: true})
 	for _, ids := range idForms {
 		ds = append(ds, directive{Kind: "removeById", IDs: ids})
 		for _, tgt := range []string{"!ARGS:a", "!ARGS:/^b/", "ARGS:c", "!ARGS:B"} {
@@ -207,6 +222,13 @@ func directives(thorough bool) []directive {
 	}
 	// run-time counterparts
 	for _, pos := range []string{"p1", "before", "after"} {
+		if pos != "after" {
+			// a removed rule must not count for a preceding skip:N either
+			ds = append(ds, directive{Ctl: true, Kind: "removeById", IDs: "2", Pos: pos, SkipBase: true})
+			ds = append(ds, directive{Ctl: true, Kind: "removeById", IDs: "2-3", Pos: pos, SkipBase: true})
+			ds = append(ds, directive{Ctl: true, Kind: "removeByTag", Tag: "t1", Pos: pos, SkipBase: true})
+			ds = append(ds, directive{Ctl: true, Kind: "removeByMsg", Msg: "m2", Pos: pos, SkipBase: true})
+		}
 		for _, ids := range []string{"2", "2-3", "4"} {
 			ds = append(ds, directive{Ctl: true, Kind: "removeById", IDs: ids, Pos: pos})
 			for _, tgt := range []string{"ARGS:a", "ARGS:/^b/", "ARGS:B"} {
@@ -249,7 +271,7 @@ func (d directive) ctlText() string {
 
 // ctlConfigs returns (configuration with the ctl rule, rewritten configuration).
 func (d directive) ctlConfigs() (string, string) {
-	rules := base()
+	rules := d.base()
 	phase, idx := 2, 0
 	switch d.Pos {
 	case "p1":
@@ -360,6 +382,9 @@ func (d directive) sig() string {
 	if d.Ctl {
 		s = "ctl:" + s + ":" + d.Pos
 	}
+	if d.SkipBase {
+		s += ":inside-skip-window"
+	}
 	form := "single"
 	switch {
 	case strings.Contains(d.IDs, " "):
@@ -395,10 +420,10 @@ func checkDirective(c *runner.Ctx, d directive, report func(sig, text string, k 
 	if d.Ctl {
 		confD, confR = d.ctlConfigs()
 	} else {
-		confD = render(base(), "", d.text())
-		confR = render(d.rewrite(base(), 0), "", "")
+		confD = render(d.base(), "", d.text())
+		confR = render(d.rewrite(d.base(), 0), "", "")
 	}
-	confB := render(base(), "", "")
+	confB := render(d.base(), "", "")
 	wD, err := scen.Build(confD)
 	if err != nil {
 		report(d.sig()+":rejected-or-panics", "configuration with the directive does not build: "+err.Error()+"\n"+confD, kase{d, 0})
@@ -436,9 +461,14 @@ func checkDirective(c *runner.Ctx, d directive, report func(sig, text string, k 
 			report(d.sig(), fmt.Sprintf("request %s\n--- configuration with the directive:\n%s%s--- explicitly rewritten configuration:\n%s%s", rq.URI, confD, got, confR, want), kase{d, ri})
 		}
 		if d.Ctl {
-			// a second transaction on the same WAF that does not trigger the ctl behaves like the base set
+			// a second transaction on the same WAF - served by the transaction object the first one returned
+			// to the pool - that does not trigger the ctl behaves like the base set
 			plain := reqs[ri]
-			got2, want2 := outcome(wD, plain), outcome(wB, plain)
+			vrt.PoolMode = 1
+			_ = outcome(wD, rq)
+			got2 := outcome(wD, plain)
+			vrt.PoolMode = 0
+			want2 := outcome(wB, plain)
 			if stripCtl(got2) != stripCtl(want2) {
 				report(d.sig()+":leaks-into-next-transaction", fmt.Sprintf("request %s (after a transaction that executed %s)\n--- same WAF:\n%s--- base rule set:\n%s", plain.URI, d.ctlText(), got2, want2), kase{d, ri})
 			}
